@@ -310,10 +310,34 @@ func init() {
 		return VInt{BVu(64, 0)}
 	}
 	for _, n := range []string{"math.Min", "math.Max", "math.Floor", "math.Ceil", "math.Abs", "math.Pow", "math.Log", "math.Exp", "math.Sqrt", "math.Trunc", "math.Round"} {
-		intrinsics[n] = func(e *Exec, a []Value) Value { return floatTok }
+		n := n
+		intrinsics[n] = func(e *Exec, a []Value) Value {
+			if e.fpPrecise {
+				switch n {
+				case "math.Min":
+					return VFloat{app(SFP, "fp.min", e.fterm(a[0]), e.fterm(a[1]))}
+				case "math.Max":
+					return VFloat{app(SFP, "fp.max", e.fterm(a[0]), e.fterm(a[1]))}
+				case "math.Abs":
+					return VFloat{app(SFP, "fp.abs", e.fterm(a[0]))}
+				case "math.Sqrt":
+					return VFloat{app(SFP, "fp.sqrt RNE", e.fterm(a[0]))}
+				}
+				e.nondet++
+				return VFloat{e.fresh(sprintf("fany_%d", e.nondet), SFP)}
+			}
+			return floatTok
+		}
 	}
 	intrinsics["(*math/big.Rat).Float64"] = func(e *Exec, a []Value) Value {
 		e.nondet++
+		if e.fpPrecise {
+			// a zero-valued Rat is 0; anything else some float
+			if c := a[0].(VPtr).C; c != nil && e.flatKey(load(c), 0) == e.flatKey(zero(c.Typ), 0) {
+				return VTuple{[]Value{VFloat{Term{S: "(_ +zero 11 53)", Sort: SFP}}, VBool{BoolC(true)}}}
+			}
+			return VTuple{[]Value{VFloat{e.fresh(sprintf("fany_%d", e.nondet), SFP)}, VBool{e.fresh(sprintf("rat_exact_%d", e.nondet), SBool)}}}
+		}
 		return VTuple{[]Value{floatTok, VBool{e.fresh(sprintf("rat_exact_%d", e.nondet), SBool)}}}
 	}
 	intrinsics[S+"Symbolic"] = func(e *Exec, a []Value) Value { return VBool{BoolC(true)} }
